@@ -5,7 +5,7 @@ RULE = ("random valid curves (polynomial and rational, scalar and vector points,
         "forced in a share of cases) with node lists: new nodes, nodes equal to existing knots, repeated nodes, the value 0, several at once, "
         "end nodes; invalid requests: multiplicity above degree+1, nodes outside the interval.  Non-trivial: at least one node really "
         "inserted into a curve of degree >= 1; distinct = distinct (U,P,W,nodes)."
-        " Also: one ndarray object stored at two indices (closed curves), both end knots in one request, float twin of every request first.")
+        " Also: nodes distinct from an interior knot but within 1e-9 of it, one ndarray object stored at two indices (closed curves), both end knots in one request, float twin of every request first.")
 EXPLANATION = ("L2: state after Curve.knot_insert vs model (exact) and heavy.Operations.knot_insert matrix vs model matrix; "
                "L3: `rf.eq before after` decided span-by-span on polynomial coefficients (every u at once), knot multiset, row-stochastic matrix, "
                "unchanged state after a refused request.")
@@ -19,9 +19,15 @@ def run_case(ctx, case):
     p, n, knots = kv_info(U)
     valid = not (U[0] in nodes or U[-1] in nodes) and all(U[0] <= x <= U[-1] for x in nodes) and all(U.count(x) + nodes.count(x) <= p + 1 for x in set(nodes) if U[0] < x < U[-1]) \
         and all(not (x == U[0] or x == U[-1]) for x in nodes)
+    # a node closer than the library's multiplicity tolerance (1e-9) to a different knot value
+    tol = F(1, 10**9)
+    allk = list(U) + list(nodes)
+    nearpair = any(0 < abs(x - y) < tol for x in nodes for y in allk)
     rec.case(case, nontrivial=(p >= 1 and len(nodes) > 0))
     rec.count("request", "valid" if valid else "invalid")
     rec.count("weights", "rational" if W is not None else "polynomial")
+    if any(x not in U and any(0 < abs(x - k) < F(1, 10**9) for k in knots) for x in nodes):
+        rec.count("nodes", "within-1e-9-of-a-knot")
     impl(lambda: float_twin(U, P, W).knot_insert([float(x) for x in nodes]))     # float data first (cross-call caches)
     for tw in mixed_twins(U, P, W):
         impl(lambda: tw.knot_insert(list(nodes)))       # int / float knots, the very same exact nodes
@@ -31,6 +37,16 @@ def run_case(ctx, case):
     r = impl(lambda: curve.knot_insert(list(nodes)))
     after = curve_state(curve)
     m = drv.call("curve.insert", *curve_args(U, P, W), nodes)
+    if valid and nearpair and W is not None and r[0] != "ok":
+        # recorded finding (KNOWN_FINDINGS.txt): the weight setter's root search fails on a knot vector with two different knots
+        # closer than 1e-9, so a rational curve refuses such a node; the refusal must at least leave the curve as it was
+        rec.count("request", "rational-near-knot-refused")
+        if after != before:
+            rec.violation("refused insertion modified the curve", case, before=ser(before), after=ser(after))
+            return
+        rec.violation("valid insertion into a rational curve raised (node within 1e-9 of a different knot)", case, observed=str(r[1])[:200],
+                      finding_key="rational-insert-node-within-1e-9-of-distinct-knot")
+        return
     if valid:
         if r[0] != "ok":
             rec.violation("valid insertion raised", case, observed=r[1])
@@ -43,6 +59,11 @@ def run_case(ctx, case):
         l2(rec, "curve.insert", case, after, m, ok)
         v = drv.call("rf.eq", *curve_args(*before), *curve_args(*after))
         l3(rec, "rf.eq")
+        if nearpair and v[0] != "ok":
+            # two different knot values closer than 1e-9: the span-table oracle does not apply; decide by degree-many exact points
+            d = same_function_by_points(drv, before, after)
+            l3(rec, "curve.def-points")
+            v = ("ok", "yes") if d is None else ("no", d)
         if v != ("ok", "yes"):
             rec.violation("curve changed as a function after knot_insert", case, oracle=ser(v), after=ser(after))
         if has_float(curve.ctrlpoints) or has_float(curve.weights):
@@ -64,14 +85,22 @@ def run_case(ctx, case):
             rec.violation("refused insertion modified the curve", case, before=ser(before), after=ser(after))
 
 
-def gen_nodes(rng, U, valid=True):
+def gen_nodes(rng, U, valid=True, near=False):
     p, n, knots = kv_info(U)
     a, b = U[0], U[-1]
     nodes = []
     k = rng.randint(1, 4)
     for _ in range(k):
         r = rng.random()
-        if r < 0.35 and len(knots) > 2:
+        if near and r < 0.6 and len(knots) > 2:
+            # a node that is distinct from an interior knot but closer to it than the library's multiplicity tolerance (1e-9)
+            kx = rng.choice(knots[1:-1])
+            x = kx + rng.choice([-1, 1]) * F(1, 10 ** rng.choice([10, 12, 15, 20]))
+            if rng.random() < 0.3 and F(float(kx)) != kx:
+                x = F(float(kx))
+            if not (a < x < b) or x in U:
+                continue
+        elif r < 0.35 and len(knots) > 2:
             x = rng.choice(knots[1:-1])
         elif r < 0.45 and a < 0 < b:
             x = F(0)
@@ -102,6 +131,10 @@ def run(ctx):
     run_case(ctx, ser(dict(kind="insert", U=[F(-1), F(-1), F(1), F(1)], P=[(F(1),), (F(2),)], W=None, nodes=[F(0)])))
     run_case(ctx, ser(dict(kind="insert", U=[F(0), F(0), F(1), F(1)], P=[(F(1),), (F(2),)], W=None, nodes=[F(2)])))
     run_case(ctx, ser(dict(kind="insert", U=[F(0), F(0), F(1, 2), F(1), F(1)], P=[(F(1),), (F(2),), (F(5),)], W=None, nodes=[F(0), F(1)])))
+    # D33: node next to a knot of multiplicity degree+1 (negative index in one_knot_insert_once); D34: refusal destroyed the curve
+    U33 = [F(0)] * 4 + [F(3, 20)] * 4 + [F(11, 20)] * 2 + [F(3, 4)] + [F(1)] * 4
+    run_case(ctx, ser(dict(kind="insert", U=U33, P=[(F(i),) for i in range(11)], W=None, nodes=[F(3, 20) - F(1, 10**20)])))
+    run_case(ctx, ser(dict(kind="insert", U=U33, P=[(F(i),) for i in range(11)], W=[F(7, 3)] * 11, nodes=[F(3, 20) - F(1, 10**20)])))
     for i in range(budget(ctx, 160, 2500)):
         U, P, W = rand_curve(rng, bigknots=(rng.random() < 0.1), force_zero=(i % 6 == 0))
         if i % 8 == 5:
@@ -114,7 +147,8 @@ def run(ctx):
             P[-1] = P[0]                     # closed curve: first and last control point are the same object
             if W is None:
                 W = [F(rng.randint(2, 9), rng.randint(1, 3)) for _ in P]
-        nodes = gen_nodes(rng, U, valid=(i % 5 != 4))
+        near = (i % 9 == 7)
+        nodes = gen_nodes(rng, U, valid=(i % 5 != 4), near=near)
         if not nodes:
             continue
         run_case(ctx, ser(dict(kind="insert", U=U, P=P, W=W, nodes=nodes)))
